@@ -45,7 +45,7 @@ import (
 //     exactly as it was"; err == nil is only acceptable where no driver call was made to fail (cancel mechanism
 //     when the cancellation came too late, driver.ErrBadConn retried away by database/sql);
 //   * afterwards no driver-level transaction is open and no connection is checked out (database/sql finishes
-//     a transaction whose context was cancelled asynchronously: the judge waits up to 2 s for that).
+//     a transaction whose context was cancelled asynchronously: the judge waits up to 5 s for that).
 
 var errInjected = errors.New("verif: injected driver fault")
 
@@ -319,7 +319,7 @@ func (w *c05World) dump() map[string][]string { return c05DumpTables(w.db, w.rec
 
 // quiesce waits (bounded) until database/sql has finished what a cancelled context makes it finish asynchronously
 func (w *c05World) quiesce() (openTx int64, inUse int) {
-	dl := time.Now().Add(2 * time.Second)
+	dl := time.Now().Add(5 * time.Second)
 	for {
 		openTx = atomic.LoadInt64(&w.rec.OpenTx)
 		inUse = w.sqlDB.Stats().InUse - 1 // the keep-alive connection
